@@ -465,6 +465,16 @@ def resolve_strategy_record_conflicts(base_path, base, decisions):
     #conflict_decisions = [d for d in decisions if d.conflict]
     decisions.decisions = [d for d in decisions if not d.conflict]
 
+    # The nbdime-conflicts field is rewritten below, so what one side did to
+    # an earlier record (e.g. removed it) must not be applied to that key too
+    for d in decisions.decisions:
+        for name in ("local_diff", "remote_diff", "custom_diff"):
+            if d.get(name):
+                d[name] = [e for e in d[name] if e.key != "nbdime-conflicts"]
+    decisions.decisions = [
+        d for d in decisions
+        if d.get("local_diff") or d.get("remote_diff") or d.get("custom_diff")]
+
     # Record remaining conflicts in field nbdime-conflicts
     conflicts_dict = {
         "local_diff": local_conflict_diffs,
